@@ -775,7 +775,7 @@ impl CodegenContext {
                                     .symbols
                                     .children(import_nx)
                                     .into_iter()
-                                    .sorted_by_key(|(_, child_nx)| *child_nx)
+                                    .sorted_by_key(|(child_id, child_nx)| (*child_nx, child_id.clone()))
                                 {
                                     // Do not import special identifiers
                                     if child_id.is_special() {
